@@ -26,6 +26,7 @@ from afkak.common import (
     OFFSET_NOT_COMMITTED,
     TIMESTAMP_INVALID,
     ConsumerFetchSizeTooSmall,
+    FailedPayloadsError,
     FetchRequest,
     IllegalGeneration,
     InvalidConsumerGroupError,
@@ -644,6 +645,24 @@ class Consumer(object):
                 self._last_committed_offset = response.offset
         self._do_fetch()
 
+    def _cancelled_by_stop(self, failure):
+        """
+        Did a client request fail just because :meth:`stop()` cancelled it?
+
+        The cancellation shows up as `CancelledError`, or, when the client had
+        already handed the request to its brokers (`KafkaClient` cancels the
+        per-broker requests), as `FailedPayloadsError` whose payloads all
+        failed with `CancelledError`.
+        """
+        if not self._stopping:
+            return False
+        if failure.check(CancelledError):
+            return True
+        if failure.check(FailedPayloadsError):
+            failed = failure.value.failed_payloads
+            return bool(failed) and all(f.check(CancelledError) for _p, f in failed)
+        return False
+
     def _handle_offset_error(self, failure):
         """
         Retry the offset fetch request if appropriate.
@@ -655,7 +674,7 @@ class Consumer(object):
         # outstanding request got errback'd, clear it
         self._request_d = None
 
-        if self._stopping and failure.check(CancelledError):
+        if self._cancelled_by_stop(failure):
             # Not really an error
             return
         # Do we need to abort?
@@ -764,7 +783,7 @@ class Consumer(object):
         with the latest processed offset, or callback/errback self._commit_ds
         """
         # Check if we are stopping and the request was cancelled
-        if self._stopping and failure.check(CancelledError):
+        if self._cancelled_by_stop(failure):
             # Not really an error
             return self._deliver_commit_result(self._last_committed_offset)
 
@@ -828,7 +847,7 @@ class Consumer(object):
         )
 
     def _handle_auto_commit_error(self, failure):
-        if self._stopping and failure.check(CancelledError):
+        if self._cancelled_by_stop(failure):
             # Not really an error: stop() cancelled the commit
             return
         if self._start_d is not None and not self._start_d.called:
@@ -877,7 +896,7 @@ class Consumer(object):
                 return
             self._fetch_offset = self.auto_offset_reset
 
-        if self._stopping and failure.check(CancelledError):
+        if self._cancelled_by_stop(failure):
             # Not really an error
             return
         # Do we need to abort?
